@@ -1809,7 +1809,7 @@ pub mod bv {
             "encoding" => vec![5 + t, 4, 3, 2, 3, 2, 3],
             "archive-index" => vec![5, 3, 6, 2, 2],
             "archive-group" => vec![5, 2],
-            "root" => vec![4, 32, 2],
+            "root" => vec![4, 32, 2, 3],
             "install" => vec![10 + 8 * t, 3, 4, 2, 2],
             "download" => vec![3, 2, 5, 2, 4 + 2 * t, 2, 3],
             "size" => vec![2, 3, 4, 5 + 2 * t, 2, 3, 4],
@@ -2150,6 +2150,26 @@ pub mod bv {
             // on a block flagged NO_NAME_HASH stores none. Neither is a loss of content.
             let stored = if vn == 1 { Some(h.unwrap_or(0)) } else if c & ContentFlags::NO_NAME_HASH != 0 { None } else { Some(h.unwrap_or(0)) };
             model.push((l, c, fdid, stored, ck));
+        }
+        // builder programs that take a record back: 1 = remove_file_from_block(first item added),
+        // 2 = remove_file(its FileDataID)
+        let edit = dg[3];
+        let mut desc = desc;
+        if edit > 0 {
+            if let Some(i0) = items.first() {
+                let (fdid, l, c, _) = universe[*i0];
+                if edit == 1 {
+                    b.remove_file_from_block(FileDataId::new(fdid), LocaleFlags::new(l), ContentFlags::new(c));
+                    if let Some(p) = model.iter().position(|m| m.0 == l && m.1 == c && m.2 == fdid) {
+                        model.remove(p);
+                    }
+                    desc.push_str(", then remove_file_from_block(first item)");
+                } else {
+                    b.remove_file(FileDataId::new(fdid));
+                    model.retain(|m| m.2 != fdid);
+                    desc.push_str(", then remove_file(first item's FileDataID)");
+                }
+            }
         }
         model.sort_unstable();
         let mut s = String::new();
